@@ -140,7 +140,7 @@ def C09(ctx):
 
 def C17(ctx):
     g = G(ctx.sub("g"))
-    tlv_enum(ctx, ctx.n(5, 6), 1, "c17")
+    tlv_enum(ctx, ctx.n(5, 7), 1, "c17")
     cases = [c for c in cst_inputs(ctx, g, ctx.n(8000, 80000), "c17", conv_share=0.0)]
     ctx.run_cases(cases)
     R = g.R
